@@ -78,10 +78,14 @@ Section Runner.
     | Some fr => list_eqb (list_eqb Nat.eqb) (map uids fr) fu
     | None => false
     end &&
-    match sel_nsga2_full o nd p k with
-    | Some r => negb cmp_sel || list_eqb Nat.eqb (map uid r) obs_sel
-    | None => false
-    end.
+    (* (rational instance on inputs where the float arithmetic is not exact: the selection may
+       legitimately differ in ties, only the fronts are compared; `if` keeps vm_compute from evaluating it) *)
+    if cmp_sel then
+      match sel_nsga2_full o nd p k with
+      | Some r => list_eqb Nat.eqb (map uid r) obs_sel
+      | None => false
+      end
+    else true.
 
   Definition run_sel (k : nat) (pop : list (list Z * list (V o))) (fu : list (list nat))
              (obs_sel : list nat) (init_cd obs_cd : list (option (D o))) (cmp_sel std : bool) : bool :=
